@@ -508,6 +508,12 @@ func runC13(r *Rec) {
 			newOwner := r.Rng.Intn(3)
 			newDis := r.Rng.Intn(4) == 0
 			msg := tokenstypes.NewMsgUpsertTokenInfo(w.addrs[sender], "utest", "adr20", sdk.OneDec(), false, sdkmath.NewInt(supply), sdkmath.NewInt(newCap), sdk.ZeroDec(), sdkmath.OneInt(), false, false, "TST", "Test", "", 6, "", "", "", 0, sdkmath.ZeroInt(), w.addrs[newOwner].String(), newDis, "", "")
+			if capv != 0 && r.Rng.Intn(7) == 0 {
+				// the supply cap is absent from the message (a nil Int on the wire): for a capped token this must not read as
+				// "no cap" - the model takes -1 for it
+				msg.SupplyCap = sdkmath.Int{}
+				newCap = -1
+			}
 			err := withCache(cc, func(c sdk.Context) error {
 				_, e := tms.UpsertTokenInfo(sdk.WrapSDKContext(c), msg)
 				return e
